@@ -33,8 +33,7 @@
 (***************************************************************************)
 EXTENDS Integers, Sequences, FiniteSets, TLC, Json, UtxoScanProps
 
-CONSTANTS Chains,    \* sequence of chains (see UtxoScanProps for the shape)
-          Cat,       \* catalogue of requests <<txid, index, start height>>
+CONSTANTS Cat,       \* catalogue of requests <<txid, index, start height>>
           Best0s,    \* possible best heights at the beginning
           MaxReq,    \* Enqueue calls per history
           MaxFail,   \* failing gate answers per history
@@ -42,7 +41,7 @@ CONSTANTS Chains,    \* sequence of chains (see UtxoScanProps for the shape)
           FalsePos,  \* may the filter report a match where there is none
           Fix7, Fix14a
 
-VARIABLES cid,       \* which chain
+VARIABLES cid,       \* which chain of ChainTable (UtxoScanChains.tla)
           best,      \* best height the environment reports
           reqs,      \* sequence of requests [tx, idx, start], index = request id
           ans,       \* sequence (same length) of answer bags
@@ -63,7 +62,7 @@ vars  == <<cid, best, reqs, ans, pq, nextB, pc, h0, h, endH, newR, rq, itx, quit
            abs, act, viol>>
 
 Ids    == 1..MaxReq
-Chain  == Chains[cid]
+Chain  == ChainTable[cid]
 H      == Len(Chain)
 NoItx  == [r \in Ids |-> -1]
 NoD    == [r \in Ids |-> <<>>]
@@ -78,7 +77,7 @@ MinStart(P) == CHOOSE s \in {reqs[r].start : r \in P} : \A r \in P : s <= reqs[r
 Merge(D1, D2) == [r \in Ids |-> IF D1[r] # <<>> THEN D1[r] ELSE D2[r]]
 
 ----------------------------------------------------------------------------
-Obs == [chain |-> Chain, best |-> best, pc |-> pc, h |-> h,
+Obs == [cid |-> cid, best |-> best, pc |-> pc, h |-> h,
         quit |-> IF quit THEN 1 ELSE 0,
         reqs |-> [i \in 1..Len(reqs) |->
                     [tx |-> reqs[i].tx, idx |-> reqs[i].idx, start |-> reqs[i].start,
@@ -282,8 +281,8 @@ TailCheck(res) ==
                              IF n.pc = PC_HASH THEN "more" ELSE "done"))
 
 Init ==
-  /\ cid \in 1..Len(Chains)
-  /\ best \in {b \in Best0s : b <= Len(Chains[cid])}
+  /\ cid \in 1..Len(ChainTable)
+  /\ best \in {b \in Best0s : b <= Len(ChainTable[cid])}
   /\ reqs = <<>> /\ ans = <<>>
   /\ pq = {} /\ nextB = {} /\ pc = PC_IDLE /\ h0 = 0 /\ h = 0 /\ endH = 0
   /\ newR = {} /\ rq = {} /\ itx = NoItx
